@@ -121,6 +121,32 @@ Section PrefixCode.
           split; [reflexivity|]. split; [reflexivity|]. split; [exact Hc|]. split; [exact Hw|]. split; [exact Hp|lia].
   Qed.
 
+  (* framer level: one code word arriving over several feeds, completed by the last one, with a surplus *)
+  Lemma first_event_word chunks : forall s w d (r : bytes),
+    holds s w -> Forall (fun ch => ch <> []) chunks -> chunks <> [] -> doc d -> head_ok r ->
+    w ++ concat chunks = d ++ r -> length (w ++ concat (removelast chunks)) < length d ->
+    (forall b x, b ++ x = d ++ r -> fits b) ->
+    (exists p, first_event F s chunks = Some (Done p r) /\ ev d = RPkt p) \/
+    (exists e, first_event F s chunks = Some (Fail e r) /\ ev d = RErr e).
+  Proof.
+    induction chunks as [|ch cs IH]; intros s w d r Hh Hne Hnn Hd Hr Heq Hlen Hfit; [congruence|].
+    inversion Hne as [|? ? Hch Hcs]; subst. cbn [concat] in Heq. rewrite app_assoc in Heq.
+    assert (Hf : fits (w ++ ch)) by (apply (Hfit (w ++ ch) (concat cs)); exact Heq).
+    destruct cs as [|c2 cs'].
+    - cbn [concat removelast] in *. rewrite app_nil_r in *.
+      cbn [first_event].
+      destruct (feed_done s w ch d r Hh Hd Heq Hlen Hr Hf) as [(p & Hp & He)|(e & He1 & He2)]; [left|right].
+      + exists p. rewrite Hp. auto.
+      + exists e. rewrite He1. auto.
+    - assert (Hrl : removelast (ch :: c2 :: cs') = ch :: removelast (c2 :: cs')) by reflexivity.
+      rewrite Hrl in Hlen. cbn [concat] in Hlen. rewrite app_assoc in Hlen.
+      destruct (app_eq_prefix _ _ _ _ Heq) as [[r' [Hr' _]]|[q [Hq [Hdq _]]]].
+      + exfalso. rewrite Hr', !app_length in Hlen. lia.
+      + destruct (feed_need s w ch d q Hh Hch Hd Hdq Hq Hf) as (s' & Hn & Hrep).
+        cbn [first_event]. rewrite Hn.
+        apply (IH s' (w ++ ch) d r); auto; [right; exact Hrep|discriminate].
+  Qed.
+
   Variable chunks0 : list bytes.
   Variable docs0 : list bytes.
   (* every buffer that can occur (pending proper prefix of a code word + one chunk) is accepted for its size *)
@@ -193,3 +219,250 @@ Section PrefixCode.
     - destruct docs0 as [|d ds]; cbn; [reflexivity|]. inversion Hd; subst. pose proof (doc_ne d H1). destruct d; [congruence|cbn; lia].
   Qed.
 End PrefixCode.
+
+Lemma wrap_first_event_done {P} (G : framer P) chs : forall (s : fst_ G) q r,
+  first_event (wrap_generic G) s chs = Some (Done q r) -> first_event G s chs = Some (Done q r).
+Proof.
+  induction chs as [|c cs IH]; intros s q r H; [discriminate|].
+  cbn [first_event] in *. cbn [ffeed wrap_generic] in H.
+  destruct (ffeed G s c) as [s'|q0 r0|e r0|]; try (inversion H; subst; reflexivity); try discriminate.
+  apply IH. exact H.
+Qed.
+
+(* ------------------------------------------------------------------------------------------------------------
+   file based: the loader is a streaming prefix-code recogniser
+   ------------------------------------------------------------------------------------------------------------ *)
+Section FbRoundtrip.
+  Context {P : Type}.
+  Variables (limit : nat) (load : bytes -> lres P) (expected : Z -> bool).
+  Variable enc : P -> bytes.                     (* the code word of a packet (dump_to_file) *)
+  Hypothesis enc_ne : forall p, enc p <> [].
+  (* on a code word followed by anything: the packet, and the file position right after the code word *)
+  Hypothesis load_done : forall p r, load (enc p ++ r) = LDone p (length (enc p)).
+  (* on a proper prefix of a code word: EOFError, having read everything *)
+  Hypothesis load_eof : forall p q x, enc p = q ++ x -> x <> [] -> load q = LEof (length q).
+
+  Let F := wrap_generic (fb_framer limit load expected).
+  Definition fb_rep (s : fb_state) (w : bytes) : Prop := s = Some (w, length w) /\ w <> [].
+  Definition fb_doc (d : bytes) : Prop := exists p, d = enc p.
+  Definition fb_ev (d : bytes) : nres P := match load d with LDone p _ => RPkt p | _ => RStop end.
+  Definition fb_fits (b : bytes) : Prop := length b <= limit.
+
+  Lemma fb_ev_enc p : fb_ev (enc p) = RPkt p.
+  Proof. unfold fb_ev. pose proof (load_done p []) as H. rewrite app_nil_r in H. rewrite H. reflexivity. Qed.
+
+  Lemma fb_holds_feed s w (ch : bytes) : holds F fb_rep s w ->
+    ffeed F s ch = match fb_round limit load expected (w ++ ch) with
+                   | Need s' => Need s' | Done p rest => Done p rest | Fail e rest => Fail e rest | Crash => Crash end.
+  Proof.
+    intros [[-> ->]|[-> _]]; cbn; [reflexivity|]. rewrite bio_write_end. reflexivity.
+  Qed.
+
+  Lemma fb_feed_need_l s w (ch : bytes) d q : holds F fb_rep s w -> ch <> [] -> fb_doc d -> d = (w ++ ch) ++ q -> q <> [] ->
+    fb_fits (w ++ ch) -> exists s', ffeed F s ch = Need s' /\ fb_rep s' (w ++ ch).
+  Proof.
+    intros Hh Hch [p ->] Hdq Hq Hf. rewrite (fb_holds_feed s w ch Hh). unfold fb_round.
+    destruct (Nat.ltb limit (length (w ++ ch))) eqn:El; [apply Nat.ltb_lt in El; unfold fb_fits in Hf; lia|].
+    rewrite (load_eof p (w ++ ch) q Hdq Hq). eexists; split; [reflexivity|].
+    split; [reflexivity|]. destruct w; [cbn; assumption|discriminate].
+  Qed.
+
+  Lemma fb_feed_done_l s w (ch : bytes) d r : holds F fb_rep s w -> fb_doc d -> w ++ ch = d ++ r -> length w < length d ->
+    True -> fb_fits (w ++ ch) ->
+    (exists p, ffeed F s ch = Done p r /\ fb_ev d = RPkt p) \/ (exists e, ffeed F s ch = Fail e r /\ fb_ev d = RErr e).
+  Proof.
+    intros Hh [p ->] Hwr _ _ Hf. left. exists p. rewrite (fb_holds_feed s w ch Hh). unfold fb_round.
+    destruct (Nat.ltb limit (length (w ++ ch))) eqn:El; [apply Nat.ltb_lt in El; unfold fb_fits in Hf; lia|].
+    rewrite Hwr, load_done, skipn_app_exact. split; [reflexivity|apply fb_ev_enc].
+  Qed.
+
+  (* every list of packets, every chunking; size band: frame <= m and m + one read <= limit (the limit is checked on
+     the accumulated buffer, see C07) *)
+  Theorem fb_roundtrip_l (pkts : list P) (chunks : list bytes) (m fuel : nat) :
+    Forall (fun ch => ch <> []) chunks -> concat chunks = concat (map enc pkts) ->
+    Forall (fun p => length (enc p) <= m) pkts -> Forall (fun ch : bytes => m + length ch <= limit) chunks ->
+    length (concat chunks) < fuel ->
+    exists c', cdeliver F fuel (cinit F) chunks = (c', map RPkt pkts) /\ cbuf c' = [] /\ ccons c' = None.
+  Proof.
+    intros Hne Heq Hm Hc Hf.
+    destruct (roundtrip_spec F fb_rep fb_doc fb_ev fb_fits (fun _ => True)) with (chunks0 := chunks) (docs0 := map enc pkts) (fuel := fuel)
+      as (c' & Hdl & Hb & Hcc); auto.
+    - intros s w [_ H]; exact H.
+    - intros d [p ->]. apply enc_ne.
+    - intros a b H. unfold fb_fits in *. rewrite app_length in H. lia.
+    - intros s w ch d q Hh Hch Hd Hdq Hq Hfit. eapply fb_feed_need_l; eauto.
+    - intros s w ch d r Hh Hd Hwr Hl Hr Hfit. eapply fb_feed_done_l; eauto.
+    - intros w ch d Hch Hd Hl. apply in_map_iff in Hd as (p & <- & Hp).
+      rewrite Forall_forall in Hm, Hc. specialize (Hm p Hp). specialize (Hc ch Hch).
+      unfold fb_fits. rewrite app_length. lia.
+    - apply Forall_forall. intros d Hd. apply in_map_iff in Hd as (p & <- & _). exists p; reflexivity.
+    - exists c'. split; [|split; assumption]. rewrite Hdl, map_map. f_equal. apply map_ext. apply fb_ev_enc.
+  Qed.
+
+  (* the buffer-filling twin, framer level: one code word arriving over several receive rounds (buffer contents, nbytes),
+     completed by the last round, with a surplus: the generator returns the packet and hands back the surplus *)
+  Theorem fb_buffered_word_l alloc (rounds : list (bytes * nat)) p (r : bytes) :
+    rounds <> [] -> Forall (fun x => firstn (snd x) (fst x) <> []) rounds ->
+    concat (map (fun x => firstn (snd x) (fst x)) rounds) = enc p ++ r ->
+    length (concat (removelast (map (fun x => firstn (snd x) (fst x)) rounds))) < length (enc p) ->
+    length (enc p ++ r) <= limit ->
+    first_bevent (fb_framer limit load expected) alloc None rounds = Some (BDone p r).
+  Proof.
+    intros Hnn Hne Heq Hlen Hlim.
+    rewrite bwrap_first_event.
+    set (chunks := map (fun x : bytes * nat => firstn (snd x) (fst x)) rounds) in *.
+    assert (Hch : Forall (fun ch : bytes => ch <> []) chunks) by (unfold chunks; rewrite Forall_map; exact Hne).
+    assert (Hcn : chunks <> []) by (unfold chunks; destruct rounds; [congruence|discriminate]).
+    destruct (first_event_word F fb_rep fb_doc fb_ev fb_fits (fun _ => True)) with (chunks := chunks) (s := @None (bytes * nat)) (w := @nil byte) (d := enc p) (r := r)
+      as [(q & Hq & He)|(e & He1 & He2)]; auto.
+    - intros s w ch d q Hh Hc Hd Hdq Hq Hfit. eapply fb_feed_need_l; eauto.
+    - intros s w ch d r0 Hh Hd Hwr Hl Hr Hfit. eapply fb_feed_done_l; eauto.
+    - left; split; reflexivity.
+    - exists p; reflexivity.
+    - intros b x Hbx. unfold fb_fits. rewrite <- Hbx, app_length in Hlim. lia.
+    - pose proof (wrap_first_event_done (fb_framer limit load expected) chunks None q r Hq) as Hq'.
+      change (option_map (to_bres (fb_framer limit load expected)) (first_event (fb_framer limit load expected) None chunks) = Some (BDone p r)).
+      rewrite Hq'. rewrite fb_ev_enc in He. inversion He; subst. reflexivity.
+    - rewrite fb_ev_enc in He2. discriminate.
+  Qed.
+End FbRoundtrip.
+
+(* the hypotheses are satisfiable: one length byte n, then n bytes *)
+Definition toy_enc (p : bytes) : bytes := N.of_nat (length p) :: p.
+Definition toy_load (content : bytes) : lres bytes :=
+  match content with
+  | [] => LEof 0
+  | n :: rest => if Nat.ltb (length rest) (N.to_nat n) then LEof (length content)
+                 else LDone (firstn (N.to_nat n) rest) (S (N.to_nat n))
+  end.
+
+Lemma toy_is_prefix_code :
+  (forall p, toy_enc p <> []) /\
+  (forall p r, toy_load (toy_enc p ++ r) = LDone p (length (toy_enc p))) /\
+  (forall p q x, toy_enc p = q ++ x -> x <> [] -> toy_load q = LEof (length q)).
+Proof.
+  split; [discriminate|]. split.
+  - intros p r. unfold toy_enc, toy_load. cbn [app]. rewrite Nat2N.id.
+    destruct (Nat.ltb (length (p ++ r)) (length p)) eqn:E; [apply Nat.ltb_lt in E; rewrite app_length in E; lia|].
+    rewrite firstn_app, Nat.sub_diag, firstn_all. cbn [firstn]. rewrite app_nil_r. reflexivity.
+  - intros p q x Heq Hx. unfold toy_enc in Heq. destruct q as [|n q']; [reflexivity|].
+    cbn [app] in Heq. inversion Heq; subst. unfold toy_load. rewrite Nat2N.id.
+    destruct (Nat.ltb (length q') (length (q' ++ x))) eqn:E; [reflexivity|].
+    apply Nat.ltb_ge in E. rewrite app_length in E. destruct x; [congruence|cbn in E; lia].
+Qed.
+
+(* a concrete instance of the theorem, so that its hypotheses are seen to be jointly satisfiable *)
+Example toy_roundtrip :
+  exists c', cdeliver (wrap_generic (fb_framer 10 toy_load (fun _ => false))) 20
+               (cinit _) [[2; 7]; [8; 0; 1]; [9]]%N
+             = (c', [RPkt [7; 8]; RPkt []; RPkt [9]]%N) /\ cbuf c' = [] /\ ccons c' = None.
+Proof.
+  destruct toy_is_prefix_code as (H1 & H2 & H3).
+  apply (fb_roundtrip_l 10 toy_load (fun _ => false) toy_enc H1 H2 H3 [[7; 8]; []; [9]]%N [[2; 7]; [8; 0; 1]; [9]]%N 3 20).
+  - repeat constructor; discriminate.
+  - reflexivity.
+  - repeat constructor; cbn; lia.
+  - repeat constructor; cbn; lia.
+  - cbn; lia.
+Qed.
+
+(* ------------------------------------------------------------------------------------------------------------
+   compressors: the decompressor object is a streaming prefix-code recogniser
+   ------------------------------------------------------------------------------------------------------------ *)
+Section CzRoundtrip.
+  Context {P : Type}.
+  Variables (D : Type) (dnew : D) (dd : D -> bytes -> (D * bytes) + Z) (deof : D -> bool) (dunused : D -> bytes).
+  Variables (expected : Z -> bool) (inner : bytes -> ores P) (inner_declared : Z -> bool).
+  Variable enc : P -> bytes.          (* the compressed stream of a packet *)
+  Variable payload : P -> bytes.      (* what the wrapped serializer produced: decompress (enc p) = payload p *)
+  (* [drep d w o]: the object d has been fed w since it was created and has output o in total *)
+  Variable drep : D -> bytes -> bytes -> Prop.
+  Hypothesis enc_ne : forall p, enc p <> [].
+  Hypothesis drep_new : drep dnew [] [].
+  (* fed up to a proper prefix of a compressed stream: no exception, not at eof *)
+  Hypothesis dd_more : forall d w o (ch : bytes) p x, drep d w o -> ch <> [] -> enc p = (w ++ ch) ++ x -> x <> [] ->
+    exists d' out, dd d ch = inl (d', out) /\ deof d' = false /\ drep d' (w ++ ch) (o ++ out).
+  (* fed the end of the stream and a surplus: eof, unused_data = the surplus, total output = the payload *)
+  Hypothesis dd_eof : forall d w o (ch : bytes) p r, drep d w o -> w ++ ch = enc p ++ r -> length w < length (enc p) ->
+    exists d' out, dd d ch = inl (d', out) /\ deof d' = true /\ dunused d' = r /\ o ++ out = payload p.
+  Hypothesis inner_ok : forall p, inner (payload p) = OOk p.
+
+  Let F := cz_framer D dnew dd deof dunused expected inner inner_declared.
+  Definition cz_rep (s : cz_state D) (w : bytes) : Prop := w <> [] /\ drep (snd s) w (concat (fst s)).
+  Definition cz_doc (d : bytes) : Prop := exists p, d = enc p.
+  Definition cz_ev (d : bytes) : nres P :=
+    match dd dnew d with
+    | inl (_, out) => match inner out with OOk p => RPkt p | ORaise _ => RStop end
+    | inr _ => RStop
+    end.
+
+  Lemma cz_ev_enc p : cz_ev (enc p) = RPkt p.
+  Proof.
+    unfold cz_ev.
+    destruct (dd_eof dnew [] [] (enc p) p [] drep_new) as (d' & out & H1 & _ & _ & H2).
+    - cbn. rewrite app_nil_r. reflexivity.
+    - pose proof (enc_ne p). destruct (enc p); [congruence|cbn; lia].
+    - rewrite H1. cbn in H2. rewrite H2, inner_ok. reflexivity.
+  Qed.
+
+  Lemma cz_holds_drep s w : holds F cz_rep s w -> drep (snd s) w (concat (fst s)).
+  Proof. intros [[-> ->]|[_ H]]; [exact drep_new|exact H]. Qed.
+
+  Lemma concat_snoc (results : list bytes) (out : bytes) :
+    concat (match out with [] => results | _ => results ++ [out] end) = concat results ++ out.
+  Proof. destruct out; [rewrite app_nil_r; reflexivity|]. rewrite concat_app. cbn. rewrite app_nil_r. reflexivity. Qed.
+
+  Theorem cz_roundtrip_l (pkts : list P) (chunks : list bytes) fuel :
+    Forall (fun ch => ch <> []) chunks -> concat chunks = concat (map enc pkts) -> length (concat chunks) < fuel ->
+    exists c', cdeliver F fuel (cinit F) chunks = (c', map RPkt pkts) /\ cbuf c' = [] /\ ccons c' = None.
+  Proof.
+    intros Hne Heq Hf.
+    destruct (roundtrip_spec F cz_rep cz_doc cz_ev (fun _ => True) (fun _ => True)) with (chunks0 := chunks) (docs0 := map enc pkts) (fuel := fuel)
+      as (c' & Hdl & Hb & Hcc); auto.
+    - intros s w [H _]; exact H.
+    - intros d [p ->]. apply enc_ne.
+    - (* feed_need *)
+      intros [results d0] w ch d q Hh Hch [p ->] Hdq Hq _. pose proof (cz_holds_drep _ _ Hh) as Hr. cbn [fst snd] in Hr.
+      destruct (dd_more d0 w (concat results) ch p q Hr Hch Hdq Hq) as (d' & out & H1 & H2 & H3).
+      cbn. rewrite H1, H2. eexists; split; [reflexivity|].
+      split; [destruct w; [cbn; assumption|discriminate]|]. cbn [fst snd]. rewrite concat_snoc. exact H3.
+    - (* feed_done *)
+      intros [results d0] w ch d r Hh [p ->] Hwr Hl _ _. pose proof (cz_holds_drep _ _ Hh) as Hr. cbn [fst snd] in Hr.
+      destruct (dd_eof d0 w (concat results) ch p r Hr Hwr Hl) as (d' & out & H1 & H2 & H3 & H4).
+      left. exists p. cbn. rewrite H1, H2. unfold cz_finish. rewrite concat_snoc, H4, inner_ok, H3.
+      split; [reflexivity|apply cz_ev_enc].
+    - apply Forall_forall. intros d Hd. apply in_map_iff in Hd as (p & <- & _). exists p; reflexivity.
+    - exists c'. split; [|split; assumption]. rewrite Hdl, map_map. f_equal. apply map_ext. apply cz_ev_enc.
+  Qed.
+End CzRoundtrip.
+
+(* the decompressor hypotheses are satisfiable: a toy object that buffers a length-prefixed record and releases it at eof *)
+Definition toyz_complete (t : bytes) : bool :=
+  match t with [] => false | n :: rest => negb (Nat.ltb (length rest) (N.to_nat n)) end.
+Definition toyz_dd (h c : bytes) : (bytes * bytes) + Z :=
+  let t := h ++ c in
+  inl (t, if toyz_complete t then match t with [] => [] | n :: rest => firstn (N.to_nat n) rest end else []).
+Definition toyz_unused (t : bytes) : bytes := match t with [] => [] | n :: rest => skipn (N.to_nat n) rest end.
+
+Lemma toyz_is_prefix_code :
+  (forall p, toy_enc p <> []) /\
+  (forall d w o (ch : bytes) p x, (d = w /\ o = []) -> ch <> [] -> toy_enc p = (w ++ ch) ++ x -> x <> [] ->
+     exists d' out, toyz_dd d ch = inl (d', out) /\ toyz_complete d' = false /\ (d' = w ++ ch /\ o ++ out = [])) /\
+  (forall d w o (ch : bytes) p r, (d = w /\ o = []) -> w ++ ch = toy_enc p ++ r -> length w < length (toy_enc p) ->
+     exists d' out, toyz_dd d ch = inl (d', out) /\ toyz_complete d' = true /\ toyz_unused d' = r /\ o ++ out = p).
+Proof.
+  split; [discriminate|]. split.
+  - intros d w o ch p x [-> ->] Hch Heq Hx. unfold toyz_dd. cbv zeta.
+    assert (Hc : toyz_complete (w ++ ch) = false).
+    { unfold toy_enc in Heq. destruct (w ++ ch) as [|n t]; [reflexivity|]. cbn [app] in Heq. inversion Heq; subst.
+      cbn. rewrite Nat2N.id. rewrite app_length. destruct x; [congruence|].
+      apply negb_false_iff. apply Nat.ltb_lt. cbn. lia. }
+    eexists; eexists; split; [reflexivity|]. split; [exact Hc|]. split; [reflexivity|]. cbn [app]. match goal with |- (if ?x then _ else _) = _ => replace x with false by (symmetry; exact Hc) end. reflexivity.
+  - intros d w o ch p r [-> ->] Heq Hl. unfold toyz_dd. cbv zeta. rewrite Heq. unfold toy_enc. cbn [app].
+    assert (Hc : toyz_complete (N.of_nat (length p) :: p ++ r) = true).
+    { cbn. rewrite Nat2N.id, app_length. apply negb_true_iff. apply Nat.ltb_ge. lia. }
+    eexists; eexists; split; [reflexivity|]. split; [exact Hc|].
+    cbn [toyz_unused]. rewrite Nat2N.id. split.
+    + apply skipn_app_exact.
+    + cbn [app]. match goal with |- (if ?x then _ else _) = _ => replace x with true by (symmetry; exact Hc) end. rewrite firstn_app, Nat.sub_diag, firstn_all. cbn [firstn]. apply app_nil_r.
+Qed.
